@@ -117,6 +117,9 @@ pub struct TransformerContext {
     rng: RefCell<Pcg32>,
     /// Current recursion depth
     current_depth: u32,
+    /// Counts the changes to anything the evaluation of an element can depend on
+    /// (registered elements, variables, defaults, config); see `generation()`
+    generation: u64,
     /// Is this a 'real' SVG doc, or just a fragment?
     pub real_svg: bool,
     /// Are we in a <specs> block?
@@ -141,6 +144,7 @@ impl Default for TransformerContext {
             rng: RefCell::new(Pcg32::seed_from_u64(0)),
             local_style_id: None,
             current_depth: 0,
+            generation: 0,
             real_svg: false,
             in_specs: false,
             events: Vec::new(),
@@ -273,6 +277,7 @@ impl TransformerContext {
     }
 
     pub fn set_config(&mut self, config: TransformConfig) {
+        self.generation += 1;
         self.seed_rng(config.seed);
         if config.use_local_styles {
             // randomise the local id to avoid conflicts with other SVG
@@ -316,6 +321,7 @@ impl TransformerContext {
     }
 
     pub fn set_element_default(&mut self, el: &SvgElement) {
+        self.generation += 1;
         let scope = self.ensure_scope();
         let el_match = ElementMatch::from(el);
         let mut mod_el = el.clone();
@@ -391,7 +397,9 @@ impl TransformerContext {
 
     pub fn set_var(&mut self, name: &str, value: &str) {
         let scope = self.ensure_scope();
-        scope.vars.insert(name.into(), value.into());
+        if scope.vars.insert(name.into(), value.into()).as_deref() != Some(value) {
+            self.generation += 1;
+        }
     }
 
     pub fn push_element(&mut self, el: &SvgElement) {
@@ -431,15 +439,33 @@ impl TransformerContext {
     }
 
     pub fn set_prev_element(&mut self, el: &SvgElement) {
+        if self.prev_element.is_none() {
+            // (which element is the previous one is not something a failed element
+            // waits for; that there is one, is)
+            self.generation += 1;
+        }
         self.prev_element = Some(el.clone());
     }
 
     pub fn update_element(&mut self, el: &SvgElement) {
         if let Some(id) = el.get_attr("id") {
             let id = eval_attr(&id, self).unwrap_or(id);
-            self.elem_map.insert(id.clone(), el.clone());
-            self.original_map.entry(id).or_insert_with(|| el.clone());
+            if self.elem_map.insert(id.clone(), el.clone()).as_ref() != Some(el) {
+                self.generation += 1;
+            }
+            if !self.original_map.contains_key(&id) {
+                self.generation += 1;
+                self.original_map.insert(id, el.clone());
+            }
         }
+    }
+
+    /// A number which changes whenever something the evaluation of an element can
+    /// depend on changes: an element is registered (or registered again in a different
+    /// form), a variable gets a different value, defaults or the configuration are set.
+    /// An element which failed is only worth another attempt if this has moved on since.
+    pub fn generation(&self) -> u64 {
+        self.generation
     }
 
     /// Number of distinct elements which have been resolved and registered
@@ -460,7 +486,10 @@ impl TransformerContext {
     pub fn register_original(&mut self, el: &SvgElement) {
         if let Some(id) = el.get_attr("id") {
             let id = eval_attr(&id, self).unwrap_or(id);
-            self.original_map.entry(id).or_insert_with(|| el.clone());
+            if !self.original_map.contains_key(&id) {
+                self.generation += 1;
+                self.original_map.insert(id, el.clone());
+            }
         }
     }
 }
